@@ -12,7 +12,7 @@ BIG = 10 ** 4
 @st.composite
 def cases(draw, tier):
     big = tier == "thorough"
-    mode = draw(st.sampled_from(["exact", "exact", "exact", "switch", "poly", "poly", "cmf", "conserve", "limit", "adaptive", "td", "td_adaptive", "solver"]))
+    mode = draw(st.sampled_from(["exact", "exact", "exact", "switch", "poly", "poly", "cmf", "conserve", "limit", "limit", "adaptive", "td", "td_vmf", "td_adaptive", "solver"]))
     spec = draw(chain.chain_model_specs(2, 5 if big else 4, max_dim=64 if not big else 128))
     terms = draw(gen.hermitian_hamiltonian(spec, max_terms=4))
     c = {"mode": mode, "model": spec, "terms": terms, "q": draw(st.integers(0, 50)), "rng": draw(st.integers(0, 10 ** 6)),
@@ -43,7 +43,7 @@ def cases(draw, tier):
         c["m0"] = draw(st.sampled_from([1, 2, 3, 4]))
         c["nstep"] = draw(st.integers(2, 6))
     elif mode == "limit":
-        c["scheme"] = draw(evo.scheme_specs(("pc", "ps", "ps2", "vmf", "cmf")))
+        c["scheme"] = draw(evo.scheme_specs(("pc", "ps", "ps2", "ps2", "ps2", "vmf", "cmf")))
         c["M"] = draw(st.integers(1, 4))
         c["crit"] = draw(st.sampled_from(["fixed", "both"]))
         c["nstep"] = draw(st.integers(1, 3))
@@ -62,6 +62,11 @@ def cases(draw, tier):
                                                                                   for m in evo.RK_METHODS if m not in evo.EMBEDDED]))
         c["terms_v"] = draw(gen.hermitian_hamiltonian(spec, max_terms=2))
         c["td_freq"] = draw(st.sampled_from([0.5, 1.0, 3.0]))
+    elif mode == "td_vmf":
+        c["scheme"] = {"fam": "vmf", "kind": draw(st.sampled_from(["tdvp_vmf", "tdvp_mu_vmf"])), "force_ovlp": draw(st.booleans()), "auto_switch": False}
+        c["terms_v"] = draw(gen.hermitian_hamiltonian(spec, max_terms=2))
+        c["td_freq"] = draw(st.sampled_from([1.0, 3.0, 6.0]))
+        c["hdt"] = draw(st.sampled_from([0.05, 0.1, 0.3, 0.5]))
     elif mode == "td_adaptive":
         c["scheme"] = {"fam": "pc", "kind": "pc_tdrk", "rk": draw(st.sampled_from(["RKF45", "Cash-Karp45"]))}
         c["terms_v"] = draw(gen.hermitian_hamiltonian(spec, max_terms=2))
@@ -168,7 +173,7 @@ class C09(Prop):
                    "VMF/CMF start from non-redundant bonds (canonicalised twice)"]
 
     def budget(self, tier):
-        return dict(examples=1280, shards=16) if tier == "quick" else dict(examples=24000, shards=16)
+        return dict(examples=2400, shards=16) if tier == "quick" else dict(examples=32000, shards=16)
 
     def strategy(self, tier):
         return cases(tier)
@@ -297,6 +302,14 @@ class C09(Prop):
             mps = self.scramble_gauge(mps, np.random.default_rng(case["rng"]))
             r.check_close("scramble.same_state", chain.dense_of(mps), psi0, 1e-9 * np.linalg.norm(psi0), "harness gauge scrambling changed the state")
             r.classes.append("vmf.non_canonical_complex_start")
+        loose = False
+        if s["kind"] in ("tdvp_vmf", "tdvp_mu_vmf") and not s.get("force_ovlp") and case["rng"] % 3 == 0 and len(mps) > 1 and not use_dm:
+            # matrices that are NOT canonical although the bookkeeping (centre, direction) says so: an invertible gauge matrix and
+            # its inverse inserted on every bond (same state, same bond dimensions, no redundancy).  Without overlap forcing the
+            # scheme has to notice and canonicalise.
+            mps = self.scramble_gauge(mps, np.random.default_rng(case["rng"]))
+            r.check_close("scramble.same_state", chain.dense_of(mps), psi0, 1e-9 * np.linalg.norm(psi0), "harness gauge scrambling changed the state")
+            r.classes.append("vmf.flags_say_canonical_but_matrices_are_not")
         cfg = evo.make_evolve_config(s)
         w = case["split_w"][: case["nsplit"]]
         dts = [t * x / sum(w) for x in w]
@@ -317,6 +330,8 @@ class C09(Prop):
             tol = 3e-4 * max(1.0, t) * len(dts) * nrm
         if s["kind"] in ("tdvp_vmf", "tdvp_mu_vmf"):
             tol = 2e-7 * max(1.0, t) * len(dts) * nrm
+            if loose:
+                tol = 1e-4 * max(1.0, t) * len(dts) * nrm  # redundant bonds of the operator image: regularised inversion
         if s["kind"] in ("tdvp_ps", "tdvp_ps2") and not ps_is_exact(mps, s["kind"]):
             # the projector-splitting schemes are second-order integrators: even when the bond dimensions hold the state,
             # the left/right bases of an interior site are complete only on the smaller side, so a step carries a
@@ -513,6 +528,53 @@ class C09(Prop):
         r.check_close(f"td.{s['kind']}", got, ref, 1e-8 * nrm * max(1.0, t) ** 6, f"{s}: time-dependent H vs dense RK with the same tableau")
         r.classes.append("time_dependent_H")
 
+    def mode_td_vmf(self, case, r, mps, mpo, H, psi0, t, evolve, apply_ref, model, q, spec, use_dm):
+        """variational (VMF) integration with a time-dependent Hamiltonian callable at full bond dimension, in one call and split
+        into two calls, vs a dense high-accuracy integration of i dpsi/dt = H(t) psi"""
+        from renormalizer.mps import Mpo
+        from scipy.integrate import solve_ivp
+
+        s = case["scheme"]
+        tv, V = scaled_terms(spec, case["terms_v"], 1.0)
+        if tv is None:
+            r.rejected = "zero perturbation"
+            return
+        w = case["td_freq"]
+        mpo_v = Mpo(model, build_ops(spec, tv))
+        if (mpo_v.is_complex or mpo.is_complex) and not mps.is_complex:
+            mps = mps.to_complex()
+
+        def f(tt):
+            return np.cos(w * tt / t)
+
+        def make_mpo_t(t0):
+            def mpo_t(tt, *a, **k):
+                return mpo.add(mpo_v.scale(f(t0 + tt)))
+            return mpo_t
+
+        y0 = psi0.astype(complex)
+        sol = solve_ivp(lambda tt, y: -1j * ((H + f(tt) * V) @ y), (0.0, t), y0, method="DOP853", rtol=1e-12, atol=1e-14)
+        ref = sol.y[:, -1]
+        nrm = np.linalg.norm(psi0)
+        tol = 2e-7 * max(1.0, t) * 2 * nrm
+        cfg = evo.make_evolve_config(s)
+        new = evolve(mps, t, cfg.copy(), normalize=False) if False else None
+        # one call
+        x1 = mps.copy()
+        x1.evolve_config = cfg.copy()
+        from renormalizer.utils import CompressConfig, CompressCriteria
+        x1.compress_config = CompressConfig(CompressCriteria.fixed, max_bonddim=BIG)
+        got1 = chain.dense_of(x1.evolve(make_mpo_t(0.0), t, normalize=False))
+        r.check_close(f"td_vmf.{s['kind']}", got1, ref, tol, f"{s}: time-dependent H (w={w}) over t={t} in one call vs dense integration")
+        # two calls: the callable of the second call starts at the time where the first one ended (time is relative to the call)
+        x2 = mps.copy()
+        x2.evolve_config = cfg.copy()
+        x2.compress_config = CompressConfig(CompressCriteria.fixed, max_bonddim=BIG)
+        mid = x2.evolve(make_mpo_t(0.0), 0.4 * t, normalize=False)
+        got2 = chain.dense_of(mid.evolve(make_mpo_t(0.4 * t), 0.6 * t, normalize=False))
+        r.check_close(f"td_vmf.split.{s['kind']}", got2, ref, tol, f"{s}: the same in two calls (0.4 t + 0.6 t)")
+        r.classes.append("time_dependent_H.vmf")
+
     def mode_td_adaptive(self, case, r, mps, mpo, H, psi0, t, evolve, apply_ref, model, q, spec, use_dm):
         """adaptive embedded-RK P&C with a time-dependent Hamiltonian callable: several accepted sub-steps inside one call"""
         from renormalizer.mps import Mpo
@@ -594,10 +656,23 @@ class C09(Prop):
         cfg = evo.make_evolve_config(s)
         cur = mps
         r.check("limit.initial", max(mps.bond_dims) <= M, f"initial bond dims {mps.bond_dims} > {M}")
+        per_bond = None
+        if (case["rng"] % 2 or s["kind"] == "tdvp_ps2") and s["kind"] in ("tdvp_ps2", "pc_taylor", "pc_tdrk4", "pc_tdrk") and len(mps) > 2:
+            # a limit per bond (compress_config.max_dims), none below the bond the state already has
+            g = np.random.default_rng(case["rng"])
+            per_bond = [max(int(b), int(g.integers(1, M + 3))) for b in mps.bond_dims]
+            per_bond[0] = per_bond[-1] = 1
+            r.classes.append("limit.per_bond")
         for k in range(case["nstep"]):
             cc = CompressConfig(crit, threshold=1e-3, max_bonddim=M)
+            if per_bond is not None:
+                cc.max_dims = np.array(per_bond, dtype=int)
             cur = evolve(cur, t, cfg.copy(), cc=cc, normalize=False)
-            if not r.check(f"limit.{s['kind']}", max(cur.bond_dims) <= M, f"step {k}: bond dims {cur.bond_dims} exceed limit {M} ({s})"):
+            if per_bond is not None:
+                if not r.check(f"limit.per_bond.{s['kind']}", all(int(b) <= l for b, l in zip(cur.bond_dims, per_bond)),
+                               f"step {k}: bond dims {list(cur.bond_dims)} exceed the per-bond limits {per_bond} ({s})"):
+                    break
+            elif not r.check(f"limit.{s['kind']}", max(cur.bond_dims) <= M, f"step {k}: bond dims {cur.bond_dims} exceed limit {M} ({s})"):
                 break
             v = chain.dense_of(cur)
             r.check("limit.finite", bool(np.all(np.isfinite(v))), "non-finite state")
